@@ -43,23 +43,25 @@ func (s *ServerSocket) Write(buf []byte) error {
 }
 
 //Read data
+//Read returns what has arrived on the connection, waiting for a read event
+//only while nothing has: data that arrived before this socket registered its
+//waiter (between Accept and NewServerSocket) raises no event for it.
 func (s *ServerSocket) Read() ([]byte, error) {
-	<-s.notifyC
 	var buf []byte
-	var err error
 	for {
 		v, _, e := s.e.Read(&s.addr)
 		if e != nil {
-			err = e
-			break
+			if buf != nil {
+				return buf, nil
+			}
+			if e == tcpip.ErrWouldBlock {
+				<-s.notifyC
+				continue
+			}
+			return nil, e
 		}
 		buf = append(buf, v...)
 	}
-	if buf == nil {
-		return nil, err
-	}
-	return buf, nil
-
 }
 
 //Readn  读取固定字节的数据
